@@ -117,6 +117,11 @@ def job(cfg):
             res.cap("%s n=%d (%d,%d) mode %s: %d of %d walker entries enumerated" % (kind, n, na, nb, mode, len(grid["free"]), grid["entries"]))
         Wa, Wb, Phi = gridmc.lab_walkers(tc, grid, mode == "r")
         P = grid["P"]
+        if kind == "multislater":
+            dmin = gridmc.multislater_blocks_ok(tc, Wa, Wb, mode)
+            if dmin < 1e-3:
+                res.cap("multislater %s mode %s: a reference block is singular on the grid (min|det|=%.1e); configuration not decided" % (cfg["variant"], mode, dmin))
+                continue
         for ip, p in enumerate(tc.params):
             trial = gridmc.trial_for(tc, ip)
             O_ref = np.conj(p.ket) @ Phi
